@@ -1293,7 +1293,10 @@ func TestC18(t *testing.T) {
 			}
 
 			js, _ := json.Marshal(lit)
-			probes = append(probes, probe{ty, wval{Lit: string(js), Class: cl, Kind: "time", T: tt, S: lit, Valid: valid}, "put"})
+
+			for _, variant := range []string{"put", "abstract"} {
+				probes = append(probes, probe{ty, wval{Lit: string(js), Class: cl, Kind: "time", T: tt, S: lit, Valid: valid}, variant})
+			}
 		}
 	}
 
